@@ -22,6 +22,16 @@ def main(argv):
         import bisturi
         print("setup ok: python %s, bisturi snapshot %s (from %s), scratch %s" % (sys.version.split()[0], dig, runner.REPO, runner.scratch_root()))
         return 0
+    if cmd == "regress":
+        # every replay that failed before a fix: commit must not reproduce on the current tree
+        import glob
+        bad = 0
+        files = sorted(glob.glob(os.path.join(runner.VERIF, "regress", "*", "*.json")) + glob.glob(os.path.join(runner.VERIF, "regress", "*.json")))
+        for f in files:
+            rc = runner.replay_file(None, f, quiet=True)
+            bad += 1 if rc else 0
+        print("regress: %d replays, %d reproduce on this tree" % (len(files), bad))
+        return 1 if bad else 0
     if cmd == "selftest":
         from . import selftest
         return selftest.main(argv[1:])
